@@ -186,7 +186,7 @@ def itermut_skip_to_index_loop(w, i, sc):
     """R21: `for (P0, P1, P2) in V.iter_mut().skip(S) { *P1 = E1; *P2 = E2; }` ->
     `for j in S..V.len() { let n0 = V[j].0; let new1 = { let P1 = &V[j].1; E1 }; let new2 = { let P2 = &V[j].2; E2 }; V.set(j, (n0, new1, new2)); }`
     (E1 / E2 copied verbatim; refused unless each Ek mentions, of the pattern variables, only its own)."""
-    m = re.match(r"^(\s*)for \((\w+), (\w+), (\w+)\) in (\w+)\.iter_mut\(\)\.skip\((\w+)\) \{$", w.lines[i])
+    m = re.match(r"^(\s*)for \((\w+), (\w+), (\w+)\) in (\w+)\.iter_mut\(\)\.skip\(([^()]+)\) \{$", w.lines[i])
     if not m:
         raise LostAnchor(f"{w._where(i)}: expected `for (a, b, c) in V.iter_mut().skip(S) {{`")
     ind, p0, p1, p2, vec, skip = m.groups()
@@ -309,7 +309,7 @@ def weave_normalize(w, sc):
     insert_at(w, k + 1, sc["normalize_weak_head.let.body.post"], anchor="after the body is substituted")
     insert_at(w, k, sc["normalize_weak_head.let.body.pre"], anchor="before the body is substituted")
     # the in-place substitution loop: `iter_mut().skip(S)` (R21), or already written with indices and `V[j] = (..)`
-    ks = [q for q in range(i_for + 1, j_for + 8) if q < len(w.lines) and re.match(r"^\s*for \(\w+, \w+, \w+\) in definitions\.iter_mut\(\)\.skip\(\w+\) \{$", w.lines[q])]
+    ks = [q for q in range(i_for + 1, j_for + 8) if q < len(w.lines) and re.match(r"^\s*for \(\w+, \w+, \w+\) in definitions\.iter_mut\(\)\.skip\([^()]+\) \{$", w.lines[q])]
     if ks:
         itermut_skip_to_index_loop(w, ks[0], sc)
     else:
